@@ -8,7 +8,7 @@ import OpenFGAVerif.Proofs.ListUsersSem
 namespace OpenFGAVerif.ListUsers
 
 section
-variable {N K : Type} [DecidableEq K]
+variable {N K : Type} [DecidableEq N] [DecidableEq K]
 
 /-- every key written by a leaf of the expression satisfies `P` -/
 inductive SendsOnly (P : K → Prop) : LExpr N K → Prop
@@ -93,7 +93,7 @@ theorem keysOK_interR {P : K → Prop} {wk : K} {chans : List (List (Found K))} 
 
 /-- every response of every schedule only contains keys written by some leaf -/
 theorem expand_keys (sys : LSys N K) (limit : Nat) (P : K → Prop) (hsys : ∀ n, SendsOnly P (sys.rule n)) :
-    ∀ {d : Nat} {V : List N} {e : LExpr N K} {r : Resp K}, Expand sys limit d V e r →
+    ∀ {d : Nat} {V : List N} {e : LExpr N K} {r : Resp N K}, Expand sys limit d V e r →
       SendsOnly P e → KeysOK P r.found := by
   intro d V e r h
   induction h with
